@@ -24,7 +24,9 @@ POOL = np.array([[1.0, 1.0], [2.0, 1.5], [5.0, 5.0], [0.5, 2.5], [3.5, 0.25], [0
 # the last row (only ever used as the appended sample) carries by far the largest weights of the pool
 WPOOL = np.array([[1.0, 1.0], [2.0, 1.0], [1.0, 2.0], [1.0, 1.0], [2.0, 2.0], [1.0, 1.0], [1.0, 2.0], [8.0, 4.0]])
 OPTIONS = {"plain": dict(baseline=None, W=False), "bl": dict(baseline=[0.5, 0.25], W=False),
-           "w": dict(baseline=None, W=True), "blw": dict(baseline=[0.5, 0.25], W=True)}
+           "w": dict(baseline=None, W=True), "blw": dict(baseline=[0.5, 0.25], W=True),
+           # variance minimisation only: positive lower bounds and a requested total intensity per row
+           "l1lb": dict(baseline=None, W=False, lb=0.05, L1=True)}
 MODELS = ["gaussian", "poisson", "excitation", "minimize"]
 
 
@@ -48,6 +50,8 @@ def _call(model, sysd, opt, rows, bsreq, layout="C"):
     from dreye.api.optimize.lsq_linear import lsq_linear, lsq_linear_excitation, lsq_linear_minimize
     A = np.array(sysd["A"])
     lb, ub = np.array(sysd["lb"]), np.array(sysd["ub"])
+    if opt.get("lb"):
+        lb = lb + opt["lb"]
     B = POOL[rows]
     bl = None if opt["baseline"] is None else np.array(opt["baseline"])
     if bl is not None:
@@ -60,6 +64,12 @@ def _call(model, sysd, opt, rows, bsreq, layout="C"):
     elif model == "excitation":
         X, Bp = lsq_linear_excitation(A, B, **kw)
     else:
+        if opt.get("L1"):
+            # the requested totals are those of the ordinary fit of each row (so that they are attainable)
+            X0 = lsq_linear(A, POOL, lb=lb, ub=ub, batch_size=1)
+            from dreye.api import _verif
+            del _verif.EVENTS[:]      # the events of this auxiliary fit are not part of the recorded call
+            kw.update(L1=X0.sum(1)[rows], l1_eps=1e-2)
         X, Bp, _ = lsq_linear_minimize(A, B, l2_eps=1e-4, **kw)
     return X, Bp
 
@@ -158,6 +168,8 @@ def run(ctx):
             for m in MODELS:
                 k = 6 if m == "excitation" else 2
                 jobs += [(s, o, m, (nmax if m != "excitation" or thorough else 3), part, k) for part in range(k)]
+    for s in SYSTEMS:
+        jobs += [(s, "l1lb", "minimize", nmax, part, 2) for part in range(2)]
     parts = pmap(run_job, jobs, chunksize=1)
     events = [e for p in parts for e in p]
     rids = {}
